@@ -158,7 +158,7 @@ theorem c04_restart_first_message_server (s : Stack) (i : Nat) (x : Instance) (t
     have hi : i < (s.foundStopAllFor a).instances.length := by
       unfold getInst at h1; exact (List.getElem?_eq_some_iff.mp h1).1
     have key : ∀ (es : List (TSEntry SubKey)) (st : Stack) (y : Instance), st.getInst i = some y →
-        (es.foldl (fun s e => (s.cancelTimer isSubExpiry e.timer).emit (.unsubscribed i e.key a)) st).getInst i = some y := by
+        (es.foldl (fun s e => (s.cancelTimer (isSubExpiryFor i a e.key) e.timer).emit (.unsubscribed i e.key a)) st).getInst i = some y := by
       intro es; induction es with
       | nil => intro st y h; exact h
       | cons e t ih => intro st y h; rw [List.foldl_cons]; exact ih _ y h
@@ -169,7 +169,7 @@ theorem c04_restart_first_message_server (s : Stack) (i : Nat) (x : Instance) (t
     rw [hrb]
     have : ((s.foundStopAllFor a).subsStopAllFor i a).announceOrder = (s.foundStopAllFor a).announceOrder := by
       unfold subsStopAllFor; split; rfl; simp only []
-      exact (foldl_pres (fun s => s.announceOrder) (fun (s : Stack) (e : TSEntry SubKey) => (s.cancelTimer isSubExpiry e.timer).emit (Out.unsubscribed i e.key a)) (fun s e => rfl) _ _).trans rfl
+      exact (foldl_pres (fun s => s.announceOrder) (fun (s : Stack) (e : TSEntry SubKey) => (s.cancelTimer (isSubExpiryFor i a e.key) e.timer).emit (Out.unsubscribed i e.key a)) (fun s e => rfl) _ _).trans rfl
     rw [this, hao]
   have hnew : TStore.findKey SubKey.same ((x'.subs.touch a).get a) (SubKey.ofEntry e) = none := by
     rw [tstore_get_touch, hempty]; rfl
